@@ -89,7 +89,13 @@ class HeapMixin:
         opt = desc.startswith('opt')
         base = desc[3:] if opt else desc
         if base.startswith('enum:'):
-            v = EnumV(self.class_named(base[5:]), val)
+            ci = self.class_named(base[5:])
+            v = EnumV(ci, val)
+            if not isinstance(val, int):
+                vals = sorted(set(self.enum_info(ci).values()))
+                rng = z3.Or(*[val == x for x in vals])
+                # typing fact: an enum-typed field holds a member (under its not-None flag)
+                self.assume(z3.Implies(z3.Not(isnone), rng) if (opt and isnone is not None) else rng)
         elif base in ('bytes', 'str', 'hbytes', 'hstr'):
             v = SymStr({'hbytes': 'bytes', 'hstr': 'str'}.get(base, base), val)
         else:
@@ -108,7 +114,9 @@ class HeapMixin:
         elif v is None:
             isnone, v = True, None
         if not opt and isnone is not False:
-            raise Unsupported('None stored into non-optional field (%s)' % desc)
+            if isinstance(isnone, bool) or self.feasible(isnone):
+                raise Unsupported('None stored into non-optional field (%s)' % desc)
+            isnone = False        # provably not None on this path
         if v is None:
             zv = None
         elif base.startswith('enum:'):
